@@ -1068,6 +1068,18 @@ void MatrixInversion(matrix *m, matrix *m_inv)
     }
 
     for(i = 0; i < m->row; i++){
+      /* partial pivoting: bring the largest entry of column i (rows i..n-1) onto the diagonal */
+      k = i;
+      for(j = i+1; j < m->row; j++){
+        if(fabs(AI->data[j][i]) > fabs(AI->data[k][i]))
+          k = j;
+      }
+      if(k != i){
+        double *row_tmp = AI->data[i];
+        AI->data[i] = AI->data[k];
+        AI->data[k] = row_tmp;
+      }
+
       for(j = 0; j < m->col; j++){
         if(i!=j){
           ratio = AI->data[j][i] / AI->data[i][i];
